@@ -1,7 +1,7 @@
 #!/usr/bin/env python3
 """Apply every seeded change in /verif/seeded to /repo, run the property's quick check, undo; print a table."""
 import os, sys, json, subprocess
-ids = sys.argv[1:] or sorted(os.listdir('/verif/seeded'))
+ids = sys.argv[1:] or sorted(d for d in os.listdir('/verif/seeded') if os.path.isdir(os.path.join('/verif/seeded', d)))
 rows = []
 import shutil
 shutil.rmtree('/tmp/evidence_backup', ignore_errors=True)
@@ -19,12 +19,11 @@ for sid in ids:
         viol = [l for l in r.stdout.split('\n') if l.startswith('VIOLATION')]
         verdict = {0: 'MISSED (exit 0)', 1: 'DETECTED', 2: 'INCONCLUSIVE (exit 2)'}.get(r.returncode, str(r.returncode))
         rows.append((sid, pid, verdict, '; '.join(v.split('replay=')[1].replace('/verif/replays/', '') for v in viol)[:260] or r.stderr.strip()[:200]))
+        print(' | '.join(rows[-1]), flush=True)
     finally:
         subprocess.run(['git', '-C', '/repo', 'checkout', '--', '.'])
 shutil.rmtree('/verif/evidence')
 shutil.copytree('/tmp/evidence_backup', '/verif/evidence')   # evidence files must come from runs on the unchanged tree
-for r in rows:
-    print(' | '.join(r))
 if not sys.argv[1:]:
     # full run: keep the table (DESIGN.md 0A.5 quotes it)
     with open('/verif/seeded/RESULTS.md', 'w') as f:
